@@ -115,6 +115,9 @@ fn cmd_hashes(args: &[String], reg: &Reg, table: ProfileTable) -> i32 {
     let seed: u64 = arg_val(args, "--seed").and_then(|s| s.parse().ok()).unwrap_or(1);
     let runs: u64 = arg_val(args, "--runs").and_then(|s| s.parse().ok()).unwrap_or(100);
     let workers: usize = arg_val(args, "--workers").and_then(|s| s.parse().ok()).unwrap_or(1);
+    if arg_val(args, "--tier").as_deref() == Some("thorough") {
+        crate::set_scale(3);
+    }
     for (p, _) in table(&prop) {
         let agg = sweep(p.as_ref(), reg, seed, 0, runs, workers, true, None, &[]);
         for (r, h) in agg.log_hashes {
@@ -173,6 +176,9 @@ fn cmd_check(args: &[String], reg: &Reg, table: ProfileTable) -> i32 {
     let tier = arg_val(args, "--tier").unwrap_or_else(|| "quick".to_string());
     let seed: u64 = arg_val(args, "--seed").and_then(|s| s.parse().ok()).unwrap_or(1);
     println!("VERIF_SEED={seed} property={prop} tier={tier}");
+    if tier == "thorough" {
+        crate::set_scale(3);
+    }
     let workers: usize = arg_val(args, "--workers")
         .and_then(|s| s.parse().ok())
         .unwrap_or_else(|| std::thread::available_parallelism().map(|n| n.get()).unwrap_or(4));
@@ -322,6 +328,13 @@ fn cmd_check(args: &[String], reg: &Reg, table: ProfileTable) -> i32 {
     std::fs::write(&evidence, serde_json::to_string_pretty(&ev).unwrap()).expect("write evidence");
     for k in &known_hits {
         println!("KNOWN-FINDING: property={prop} {k}");
+    }
+    // listed findings of this property that this run's sample did not happen to hit again
+    for k in known.iter().filter(|k| k.property == prop) {
+        let label = format!("oracle={} {}", k.oracle, k.what);
+        if !known_hits.iter().any(|h| h.starts_with(&label)) {
+            println!("KNOWN-FINDING: property={prop} {label} (not re-observed in this run's sample)");
+        }
     }
     println!(
         "runs={} executions={} txs={} deliveries={} distinct_nontrivial={} wall={:.1}s",
